@@ -71,8 +71,8 @@ def rule_dict_tables(ctx: Ctx, rule: str = "writer-reader-tables") -> None:
 
     read_top = {k for b, k in _subscript_read_keys(fd.node) if b == fd.params[0]}
     read_clause = {k for root in with_new_helpers(prog, fd) for b, k in _subscript_read_keys(root) if not (root is fd.node and b == fd.params[0])}
-    req_top = _required_keys(val)
-    req_clause = _required_keys(chk)
+    req_top = _required_keys(val, prog)
+    req_clause = _required_keys(chk, prog)
     for name, a, b in (
         ("top-level keys written by to_machine_dict = keys read by from_dict", set(top), read_top),
         ("top-level keys written by to_machine_dict = keys required by validate_contract_dict", set(top), req_top),
@@ -112,7 +112,7 @@ def rule_dict_tables(ctx: Ctx, rule: str = "writer-reader-tables") -> None:
     # --- string form
     written = {k: v for b, k, v in _subscript_store_keys(td.node)}
     params = set(fs.params) - {"simplify"}
-    req_plain = _required_keys(val)
+    req_plain = _required_keys(val, prog)
     for name, a, b in (
         ("keys written by to_dict = parameters of from_strings (the reader splats the dictionary)", set(written), params),
         ("keys written by to_dict = keys required by validate_contract_dict", set(written), req_plain),
@@ -287,16 +287,19 @@ def rule_file_tags(ctx: Ctx, rule: str = "file-tags") -> None:
 
     collect(w.body, None)
     read: Dict[str, str] = {}
-    flr = Flow(r.node)
+    from .rules_exc import with_new_helpers
+
+    r_roots = with_new_helpers(prog, r)
+    flrs = [Flow(root) for root in r_roots]
 
     def is_type_field(e: ast.AST) -> bool:
         if norm(e).endswith("['type']"):
             return True
         if isinstance(e, ast.Name):
-            return any(norm(d).endswith("['type']") for d in flr.defs.get(e.id, []))
+            return any(norm(d).endswith("['type']") for fl_ in flrs for d in fl_.defs.get(e.id, []))
         return False
 
-    for node in ast.walk(r.node):
+    for node in (x for root in r_roots for x in ast.walk(root)):
         if isinstance(node, ast.If) and isinstance(node.test, ast.Compare) and isinstance(node.test.comparators[0], ast.Constant) and is_type_field(node.test.left):
             tag = node.test.comparators[0].value
             for st in node.body:
@@ -318,7 +321,7 @@ def rule_file_tags(ctx: Ctx, rule: str = "file-tags") -> None:
         else:
             ctx.violation(rule, r.key, construct, "written with %s, read with %s" % (wr, rd), where=r.where)
     wk = {k for b, k, v in _subscript_store_keys(w.node)}
-    rk = {k for b, k in _subscript_read_keys(r.node)}
+    rk = {k for root in r_roots for b, k in _subscript_read_keys(root)}
     construct = "entry keys written = entry keys read"
     (ctx.ok(rule, w.key, construct + ": %s" % sorted(wk)) if wk == rk and wk else ctx.violation(rule, w.key, construct, "written %s, read %s" % (sorted(wk), sorted(rk)), where=w.where))
 
